@@ -243,6 +243,10 @@ func runC06(c *Ctx) {
 	c.NotDec = []string{"equality of results across cache/snapshot/prefetcher/GC configurations and across runs (value-level)", "determinism of the staking contract's own bytecode", "absence of data races between execution and background goroutines"}
 	c.Floors["D"] = 40
 	c06Round3(c)
+	// snapshot layers answer as the trie would (C08): lookup order inside a diff layer, filter membership, destruct marks
+	c08Snapshot(c)
+	signerEqualRule(c)
+	mapLoopsRunToTheEnd(c)
 
 	skip := func(f *ssa.Function) bool {
 		p := strings.TrimPrefix(f.Pkg.Pkg.Path(), modPath+"/")
